@@ -118,6 +118,59 @@ impl BuildHasher for NondetBuild {
     }
 }
 
+/// Hasher with per-instance state, like std's `RandomState`: every `default()` draws a fresh
+/// (symbolic) key, a clone keeps it. Two queues built independently hash the same item
+/// differently; each map is consistent with itself.
+#[derive(Clone, Copy, Debug)]
+pub struct KeyedBuild {
+    pub seed: u8,
+}
+impl Default for KeyedBuild {
+    fn default() -> Self {
+        KeyedBuild { seed: crate::sym::u8() }
+    }
+}
+#[derive(Clone, Copy, Debug)]
+pub struct KeyedHasher {
+    seed: u64,
+    acc: u64,
+}
+impl Hasher for KeyedHasher {
+    fn finish(&self) -> u64 {
+        // spread over the word so that the real map's control bytes differ too
+        (self.acc ^ self.seed).wrapping_mul(0x9E37_79B9_7F4A_7C15)
+    }
+    fn write(&mut self, bytes: &[u8]) {
+        let mut i = 0;
+        while i < bytes.len() {
+            self.acc = (self.acc << 8) | bytes[i] as u64;
+            i += 1;
+        }
+    }
+    fn write_u8(&mut self, b: u8) {
+        self.acc = b as u64;
+    }
+}
+impl BuildHasher for KeyedBuild {
+    type Hasher = KeyedHasher;
+    fn build_hasher(&self) -> KeyedHasher {
+        KeyedHasher { seed: self.seed as u64, acc: 0 }
+    }
+}
+
+/// what the map model needs to know about a hasher type
+pub trait HashKind {
+    /// deterministic per instance: the model checks the contract of caller-supplied hashes
+    const PER_INSTANCE: bool = false;
+}
+impl HashKind for IdBuild {}
+impl HashKind for NondetBuild {}
+impl HashKind for ConstBuild {}
+impl HashKind for RevBuild {}
+impl HashKind for KeyedBuild {
+    const PER_INSTANCE: bool = true;
+}
+
 /// Concrete hashers for the REALMAP family.
 #[derive(Clone, Copy, Default, Debug)]
 pub struct ConstHasher;
